@@ -249,7 +249,7 @@ def run(ctx):
     else:
         ctx.extra["two_frame_grid_exhaustive"] = True
     rng = ctx.rng
-    for i in range(ctx.pick(600, 12000)):
+    for i in range(ctx.pick(600, 60000)):
         cases.append(random_case(rng, opts))
     n = 16
     ctx.shard([{"cases": cases[i::n]} for i in range(n)], timeout=ctx.pick(300, 1500))
